@@ -23,9 +23,10 @@ class Unsupported(Exception):
 class EvalRaise(Exception):
     """The evaluated code raises (e.g. ValueError from ir.DataType(code))."""
 
-    def __init__(self, name: str):
+    def __init__(self, name: str, explicit: bool = False):
         super().__init__(name)
         self.name = name
+        self.explicit = explicit   # raised by a `raise` statement of the interpreted code (a deliberate rejection)
 
 
 @dataclass(frozen=True)
@@ -246,7 +247,7 @@ class Evaluator:
                 nm = "Exception"
                 if st.exc is not None:
                     nm = (call_name(st.exc) if isinstance(st.exc, ast.Call) else dotted(st.exc)) or "Exception"
-                raise EvalRaise(nm)
+                raise EvalRaise(nm, explicit=True)
             elif isinstance(st, ast.Pass):
                 continue
             elif isinstance(st, ast.FunctionDef) and not st.decorator_list:
